@@ -81,8 +81,8 @@ type World struct {
 	TeardownWait  time.Duration // how long a step waits for the end of a teardown (longer when the scheduler stalls it)
 	connBefore    string
 	dpTimeouts    int
-	ReportCopies  int    // BESS: a report is written this many times back to back on the notify socket (0, 1: once)
-	ConnTruth     string // "down": the harness itself stopped the datapath server a while ago; Assoc records that instead of the agent's own view
+	ReportCopies  int           // BESS: a report is written this many times back to back on the notify socket (0, 1: once)
+	ConnTruth     string        // "down": the harness itself stopped the datapath server a while ago; Assoc records that instead of the agent's own view
 	DdnMs         int           // notification interval set through the hook (0 = the code's 20 s)
 	t0            time.Time     // start of the world (time stamps of report events)
 	HoldFar       time.Duration // C14: delay of farLookup add commands while a modification with SNDEM is processed
